@@ -28,7 +28,7 @@ pub(super) fn generate_field_definitions(
             let mut field_statics = Vec::new();
             let mut field_refs = Vec::new();
 
-            for field in named {
+            for (index, field) in named.iter().enumerate() {
                 let field_name = field
                     .ident
                     .as_ref()
@@ -38,14 +38,16 @@ pub(super) fn generate_field_definitions(
                 // A raw identifier (`r#type`) names the field `type`.
                 let field_name_str = field_name.unraw().to_string();
 
+                // Named by position: a name derived from the field's could meet `FIELD_REFS` (a field
+                // called `refs`) or the static of a field that differs only in case.
                 let static_name = if let Some(variant_ident) = variant_prefix {
                     quote::format_ident!(
                         "FIELD_{}_{}",
                         variant_ident.unraw().to_string().to_uppercase(),
-                        field_name_str.to_uppercase()
+                        index
                     )
                 } else {
-                    quote::format_ident!("FIELD_{}", field_name_str.to_uppercase())
+                    quote::format_ident!("FIELD_{}", index)
                 };
 
                 let comments = utils::extract_doc_comments(&field.attrs);
